@@ -67,4 +67,13 @@ theorem dangling_index_after_prune :
     WF d ∧ refsValid (apply d (.pruneGroups false 1)).1 = false := by
   decide +kernel
 
+/-- witness 4 (why `safe` bounds the instant of CreateShardGroup by MaxNanoTime): the group
+created for MaxNanoTime ends at the clamp MaxNanoTime+1 = MaxInt64 and does not contain the
+instant MaxInt64, so a CreateShardGroup for that instant adds a second live group on the same
+span (finding `group_beyond_max_nanotime`). -/
+theorem overlap_at_max_int64 :
+    let d := applyAll Data.init (twoHourLog ++ [.createShardGroup "db0" "autogen" maxNanoTime 1 0 0])
+    WF d ∧ groupsDisjoint (apply d (.createShardGroup "db0" "autogen" (maxNanoTime + 1) 1 0 0)).1 = false := by
+  decide +kernel
+
 end OG.C16
